@@ -95,8 +95,8 @@ example :
 /-! ### (g) the retain step: one message per topic, last non-empty one wins, empty clears -/
 
 /-- The retain step of `onPublish` on a well-formed retained trie, for a topic
-name without empty and without '$'-led levels (`good`; findings B3/B4 are
-outside).  RETAIN = 0: nothing changes.  RETAIN = 1 with an empty payload:
+name without empty levels that does not begin with '$' (`good`; finding B3 and
+the topics outside the property's quantifier are outside).  RETAIN = 0: nothing changes.  RETAIN = 1 with an empty payload:
 exactly the entry under the topic's path disappears, every other entry stays.
 RETAIN = 1 with a non-empty payload: the entry under the topic's path is
 replaced by (or added as) one message with the PUBLISH's topic, QoS and payload
@@ -115,7 +115,7 @@ theorem C08_retain_step_partial (b : B) (m : Msg) (hwf : RWF b.topics.rroot)
           ((absR b.topics.rroot).filter (fun e => !(e.1 == split m.p.topic)) ++ [(split m.p.topic, r)])) ∧
     (retainStep b m).1.topics.sroot = b.topics.sroot ∧ (retainStep b m).1.conns = b.conns ∧
     (retainStep b m).1.sess = b.sess := by
-  obtain ⟨e1, e2⟩ := Mqtt.Proofs.Topics.levels_valid m.p.topic hg
+  obtain ⟨e1, e2⟩ := Mqtt.Proofs.Topics.entryLevels_valid m.p.topic hg
     (Mqtt.Proofs.Topics.validName_validFilter _ hn)
   have ht : m.p.topic ≠ [] := by
     intro h0; rw [h0] at hn; exact absurd hn (by decide)
@@ -278,8 +278,8 @@ theorem C08_subscribe_delivers_retained (b : B) (hinv : Inv b) (c id : Nat) (top
         else []) :=
   packet_subscribe_out b hinv c id topics hl htop
 
-/-- For requests whose filters have no empty and no '$'-led level (findings
-B3/B4 are outside): the output of the SUBSCRIBE step is the SUBACK with the
+/-- For requests whose filters have no empty level and do not begin with '$'
+(finding B3 is outside): the output of the SUBSCRIBE step is the SUBACK with the
 specification's codes, followed - per granted filter, in request order - by the
 stored retained messages whose path matches the filter under section 4.7, in
 some order within the filter (Go map iteration), each with RETAIN = 1, QoS
@@ -383,7 +383,7 @@ example :
 error and calls nothing; an accepted one calls the callback once per message
 `Retained(filter)` returned, with the stored topic, payload, RETAIN flag and
 QoS min(stored, granted) - and nothing else happens.  For a filter without
-empty and '$'-led levels these are exactly the stored messages whose path
+empty levels, not beginning with '$', these are exactly the stored messages whose path
 matches the filter under section 4.7, all with RETAIN = 1. -/
 theorem C08_srvSub_delivers_retained_partial (b : B) (hinv : Inv b) (cb : Nat) (f : Bytes) (q : Nat)
     (hg : good f = true) :
@@ -425,7 +425,7 @@ theorem C08_srvSub_effect (b : B) (hinv : Inv b) (cb : Nat) (f : Bytes) (q : Nat
     Inv (srvSub b cb f q).1 ∧
     (Mqtt.Proofs.Topics.abs (srvSub b cb f q).1.topics.sroot).Perm
       (if accepts f q then
-        addEntry (Mqtt.Proofs.Topics.abs b.topics.sroot) (Mqtt.Model.Topics.levels f).1 cb
+        addEntry (Mqtt.Proofs.Topics.abs b.topics.sroot) (Mqtt.Proofs.Topics.entryLevels f).1 cb
           (min q Mqtt.Generated.maxQosAllowed)
        else Mqtt.Proofs.Topics.abs b.topics.sroot) ∧
     (srvSub b cb f q).1.topics.rroot = b.topics.rroot := by
